@@ -229,6 +229,70 @@ class VOpaque:
         self.what = what
 
 
+class VFmt:
+    """trace mode (writers): a string built from a constant template with {} holes; args are z3 ints, or None for text the
+    abstraction does not look into.  `joined` = (separator, tail) when the text is  sep.join(<this>.splitlines()) + tail"""
+
+    def __init__(self, template, args, joined=None, split=False):
+        self.template, self.args, self.joined, self.split = template, list(args), joined, split
+
+
+class VEnum:
+    """enumerate(inner, start)"""
+
+    def __init__(self, inner, start):
+        self.inner, self.start = inner, start
+
+
+class VSink:
+    """a writable text stream: only the sequence of write() events is modelled (one ISeq event per call)"""
+
+    def __init__(self, trace):
+        self.trace = trace
+
+
+TEMPLATE_IDS = {}
+
+
+def template_id(t):
+    if t not in TEMPLATE_IDS:
+        TEMPLATE_IDS[t] = len(TEMPLATE_IDS) + 1
+    return TEMPLATE_IDS[t]
+
+
+def str_choice_id(v):
+    """a z3 string that is a constant or an if-then-else of constants (e.g. `">=" if .. else "="`): its id as an int term"""
+    if is_z3(v) and z3.is_string(v):
+        if z3.is_string_value(v):
+            return z3.IntVal(template_id('str:' + v.as_string()))
+        if z3.is_app(v) and v.decl().kind() == z3.Z3_OP_ITE:
+            a, b = str_choice_id(v.arg(1)), str_choice_id(v.arg(2))
+            if a is not None and b is not None:
+                return z3.If(v.arg(0), a, b)
+    return None
+
+
+def normalize_template(fmt, nargs, kwnames):
+    """(template with positional {} / {:spec} holes, list of argument selectors) for a str.format template"""
+    import string
+    out, sel, auto = '', [], 0
+    for lit, fld, spec, conv in string.Formatter().parse(fmt):
+        out += lit.replace('{', '{{').replace('}', '}}')
+        if fld is None:
+            continue
+        if conv or '.' in fld or '[' in fld:
+            raise Unsupported('format field ' + fld)
+        if fld == '':
+            sel.append(auto)
+            auto += 1
+        elif fld.isdigit():
+            sel.append(int(fld))
+        else:
+            sel.append(fld)
+        out += '{' + (':' + spec if spec else '') + '}'
+    return out, sel
+
+
 class VCounted:
     """a list whose elements the contract does not look into, except how many were appended and which one was appended last
     (the list of variable groups of a formula: labels stay aligned only if every group is registered exactly once)"""
@@ -506,6 +570,8 @@ class Engine:
             return VSeq(self.fresh(base, specs.CSeq))
         if ty == 'mclist':
             return VMList(self.fresh(base, specs.CSeq))
+        if ty == 'sink':
+            return VSink(self.fresh(base + '_trace', specs.CSeq))
         if ty == 'fn:gad':
             return VGadFn(self.fresh(base + '_fid'))
         if ty == 'asg':
@@ -604,7 +670,12 @@ class Engine:
     def feasible(self, extra):
         s = z3.Solver()
         s.set('timeout', self.feas_timeout)
-        s.add(self.pc)
+        if not os.environ.get('PYVC_FEAS_FULL'):
+            # definitional axioms (top-level quantifiers) only slow the check down; leaving hypotheses out is sound here
+            # (it can only make a path look feasible)
+            s.add([h for h in self.pc if not z3.is_quantifier(h)])
+        else:
+            s.add(self.pc)
         s.add(extra)
         return s.check() != z3.unsat
 
@@ -722,6 +793,8 @@ class Engine:
             return VMList(v.term)
         if isinstance(v, VCounted):
             return VCounted(v.count, v.last)
+        if isinstance(v, VSink):
+            return VSink(v.trace)
         if isinstance(v, VArr):
             return VArr(v.length, v.arr)
         if isinstance(v, VArr2):
@@ -747,6 +820,10 @@ class Engine:
             env[g] = self.fresh_of_type(g, ty)
         for r in c.get('requires', []):
             self.assume(toz(self.spec_eval(r, env)))
+        for d in c.get('defines', []):
+            # definitional axioms of spec functions that belong to this contract alone (e.g. the event a writer emits per
+            # literal): total, non-recursive right-hand sides over a writer id no other contract uses
+            self.assume(toz(self.spec_eval(d, env)))
         old = {k: self.snapshot(v) for k, v in env.items()}
         entry = dict(env)      # parameter names in postconditions denote the objects passed in (python may rebind the local)
         env['__old__'] = old   # old(e) is also available in loop invariants and hints
@@ -1018,7 +1095,7 @@ class Engine:
             if isinstance(n, (ast.Yield, ast.YieldFrom)):
                 names.add('_y*')
             if isinstance(n, ast.Call) and isinstance(n.func, ast.Attribute) and \
-                    n.func.attr in ('append', 'pop', 'insert', 'remove', 'sort', 'extend', 'add', 'update', 'reverse'):
+                    n.func.attr in ('append', 'pop', 'insert', 'remove', 'sort', 'extend', 'add', 'update', 'reverse', 'write'):
                 b = n.func.value
                 if isinstance(b, ast.Name):
                     names.add(b.id)
@@ -1046,6 +1123,8 @@ class Engine:
         if isinstance(v, VTerms):
             v.term = self.fresh(name, specs.TSeq)
             return v
+        if isinstance(v, VCon):
+            return VCon(self.fresh(name + '_terms', specs.TSeq), self.fresh(name + '_op', z3.StringSort()), self.fresh(name + '_value'))
         if isinstance(v, VArr2):
             v.length = self.fresh(name + '_len')
             self.pc.append(v.length >= 0)
@@ -1059,6 +1138,9 @@ class Engine:
             return v
         if isinstance(v, VOpaque):
             return VOpaque(v.what)
+        if isinstance(v, VSink):
+            v.trace = self.fresh(name + '_trace', specs.CSeq)
+            return v
         if isinstance(v, VCounted):
             n = self.fresh(name + '_count')
             self.pc.append(n >= 0)
@@ -1237,6 +1319,10 @@ class Engine:
             if it.sortname == 'ISeq':
                 niter = specs.ilen(it.term)
                 elem = lambda i: specs.iget(it.term, i)
+            elif it.sortname == 'OSeq':
+                niter = specs.olen(it.term)
+                ot = it.term
+                elem = lambda i: VCon(specs.Con.terms(specs.oget(ot, i)), specs.Con.op(specs.oget(ot, i)), specs.Con.value(specs.oget(ot, i)))
             else:
                 niter = specs.clen(it.term)
                 elem = lambda i: VSeq(specs.cget(it.term, i))
@@ -1256,6 +1342,18 @@ class Engine:
             niter = specs.tlen(it.term)
             t0 = it.term
             elem = lambda i: VTuple([specs.tcoef(t0, i), specs.tlit(t0, i)], 'tuple')
+        elif isinstance(it, VOpaque):
+            # a container the contract does not look into (e.g. the header dictionary): some number of unmodelled elements
+            niter = self.fresh('opaque_len')
+            self.pc.append(niter >= 0)
+            elem = lambda i: VOpaque('element of ' + it.what)
+        elif isinstance(it, VEnum):
+            inner, start = it.inner, toz(it.start)
+            if isinstance(inner, VStrs):
+                niter = specs.sslen(inner.term)
+                elem = lambda i: VTuple([start + i, VStr(specs.ssget(inner.term, i))], 'tuple')
+            else:
+                raise Unsupported('enumerate over {!r}'.format(inner))
         else:
             raise Unsupported('for over {!r} (line {})'.format(it, s.lineno))
         niter = z3.simplify(niter) if is_z3(niter) else niter
@@ -1474,6 +1572,19 @@ class Engine:
             return VSeq(specs.iapp(a.term, b.term))
         if isinstance(a, VTuple) and isinstance(op, ast.Mult) and isinstance(b, int):
             return VTuple(a.items * b, a.kind)
+        if isinstance(op, ast.Add) and (isinstance(a, VFmt) or isinstance(b, VFmt)):
+            def lift(x):
+                if isinstance(x, VFmt):
+                    return x
+                if isinstance(x, str) and not x.startswith('<'):
+                    return VFmt(x.replace('{', '{{').replace('}', '}}'), [])
+                raise Unsupported('concatenation of a formatted text with unmodelled text')
+            A, Bv = lift(a), lift(b)
+            if A.joined is not None and Bv.joined is None and not Bv.args:
+                return VFmt(A.template, A.args, joined=(A.joined[0], A.joined[1] + Bv.template.replace('{{', '{').replace('}}', '}')))
+            if A.joined is not None or Bv.joined is not None or A.split or Bv.split:
+                raise Unsupported('concatenation around a joined text')
+            return VFmt(A.template + Bv.template, A.args + Bv.args)
         if isinstance(a, str) and isinstance(b, str) and isinstance(op, ast.Add):
             return a + b
         if isinstance(a, VTuple) and isinstance(op, ast.Mult) and is_z3(b) and len(a.items) == 1 \
@@ -1662,7 +1773,7 @@ class Engine:
                 r = o.fields[e.attr[:-3]]
                 return toz(r.lo) if e.attr.endswith('_lo') else toz(r.hi)
             return ('method', o, e.attr)
-        if isinstance(o, (VTuple, VMList, VArr, VSeq, VOpaque, VCounted, VArr2, VRow, VSet2, VStr, VStrs)) or isinstance(o, str):
+        if isinstance(o, (VTuple, VMList, VArr, VSeq, VOpaque, VCounted, VArr2, VRow, VSet2, VStr, VStrs, VFmt, VSink)) or isinstance(o, str):
             return ('method', o, e.attr)
         if isinstance(o, tuple) and o[0] == 'global':
             return ('global', o[1] + '.' + e.attr)
@@ -1999,6 +2110,16 @@ class Engine:
                     safe = False
             if not safe and self.choose(2) == 1:
                 raise PyExc('IndexError', e.lineno)
+            if safe and self.frames[0]['contract'].get('trace') and not getattr(self, 'in_spec', False):
+                t, sel = normalize_template(fmt, len(e.args), [k.arg for k in e.keywords])
+                vals = [self.eval(a, env) for a in e.args]
+                kwv = {k.arg: self.eval(k.value, env) for k in e.keywords}
+                args = []
+                for x in sel:
+                    v = vals[x] if isinstance(x, int) else kwv[x]
+                    args.append(toz(v) if (isinstance(v, int) and not isinstance(v, bool)) or (is_z3(v) and z3.is_int(v)) else
+                                (('str', v) if isinstance(v, str) and not v.startswith('<') else str_choice_id(v)))
+                return VFmt(t, args)
             return '<formatted>'
         if any(isinstance(a, ast.Starred) for a in e.args):
             raise Unsupported('star args')
@@ -2206,6 +2327,34 @@ class Engine:
                                           'missing `modifies` frame or inconsistent contract'.format(key[1], node.lineno))
         return res
 
+    def write_event(self, x, node):
+        """the event of one write() call: a comment line (content not looked into; only that it cannot leave the comment),
+        or a formatted piece identified by its template and integer arguments"""
+        import re
+        prefix = self.frames[0]['contract'].get('trace', {}).get('comment')
+        if isinstance(x, str) and not x.startswith('<'):
+            x = VFmt(x.replace('{', '{{').replace('}', '}}'), [])
+        if not isinstance(x, VFmt) or x.split:
+            raise Unsupported('write of text outside the trace abstraction (line {})'.format(node.lineno))
+        if x.joined is not None:
+            sep, tail = x.joined
+            # sep.join(text.splitlines()) + tail : every line of `text` is prefixed again, so the whole stays a comment
+            if prefix and sep.startswith('\n' + prefix) and x.template.startswith(prefix) and tail == '\n' and '\n' not in sep[1:]:
+                return specs.evcomment
+            raise Unsupported('joined text that is not a comment block (line {})'.format(node.lineno))
+        raw = x.template.replace('{{', '{').replace('}}', '}')
+        if not x.args and prefix and re.fullmatch(re.escape(prefix) + r'[^\n]*\n', raw):
+            return specs.evcomment
+        ints = []
+        for a in x.args:
+            if a is None:
+                raise Unsupported('write of a non-comment text with unmodelled content (line {})'.format(node.lineno))
+            ints.append(z3.IntVal(template_id('str:' + a[1])) if isinstance(a, tuple) else a)
+        if len(ints) > 2:
+            raise Unsupported('more than two holes in a written template')
+        ints += [z3.IntVal(0)] * (2 - len(ints))
+        return specs.ev3(z3.IntVal(template_id(x.template)), ints[0], ints[1])
+
     def closure_to_gad(self, f, node):
         """a nested function with a (separately verified) gadget contract is passed as a function value: from here on it is
         the pure map l -> gad(sid, l); its contract is assumed for EVERY literal (the closure's own verification discharges
@@ -2366,6 +2515,21 @@ class Engine:
                         break
                     return self.call_contract(key, c, fnode, args, kw, node, o)
             return self.call_function(mrel, '{}.{}'.format(mcls, meth), fnode, args, kw, node, selfobj=o)
+        if isinstance(o, VFmt):
+            if meth in ('encode', 'decode'):
+                return o                 # re-encoding changes characters inside the holes, not the structure of the text
+            if meth == 'splitlines' and not args and o.joined is None:
+                return VFmt(o.template, o.args, split=True)
+            raise Unsupported('method {} of a formatted text'.format(meth))
+        if isinstance(o, str) and meth == 'join' and len(args) == 1 and isinstance(args[0], VFmt) and args[0].split and not o.startswith('<'):
+            return VFmt(args[0].template, args[0].args, joined=(o, ''))
+        if isinstance(o, VSink):
+            if meth == 'write' and len(args) == 1:
+                o.trace = specs.csnoc(o.trace, self.write_event(args[0], node))
+                return None
+            if meth == 'flush':
+                return None
+            raise Unsupported('method {} of a text stream'.format(meth))
         f = LIST_METHODS.get((type(o).__name__, meth))
         if f:
             return f(self, node, o, *args, **kw)
@@ -2562,7 +2726,24 @@ def sf_olast(eng, node, v):
     return v.last
 
 
+def sf_ev(eng, node, template, *args):
+    t, _sel = normalize_template(template, len(args), [])
+    ints = [z3.IntVal(template_id('str:' + a)) if isinstance(a, str) else toz(a) for a in args]
+    ints += [z3.IntVal(0)] * (2 - len(ints))
+    return VSeq(specs.ev3(z3.IntVal(template_id(t)), ints[0], ints[1]))
+
+
+def sf_trace(eng, node, v):
+    if not isinstance(v, VSink):
+        raise SpecError('trace() of a value that is not a text stream')
+    return VSeq(v.trace)
+
+
 SPEC_FUNCS = {
+    'ev': sf_ev, 'trace': sf_trace, 'tid': lambda eng, node, t: z3.IntVal(template_id(normalize_template(t, 0, [])[0])),
+    'oget': _wrap(specs.oget),
+    'dterms': _wrap(specs.dterms), 'dcons': _wrap(specs.dcons), 'tevent': _wrap(specs.tevent), 'cevent': _wrap(specs.cevent),
+    'dropc': _wrap(specs.dropc), 'dlits': _wrap(specs.dlits), 'dclauses': _wrap(specs.dclauses), 'levent': _wrap(specs.levent),
     'ishift': _wrap(specs.ishift), 'preds': _wrap(specs.preds), 'outdeg': _wrap(specs.outdeg), 'gtopo': _wrap(specs.gtopo),
     'gsinkok': _wrap(specs.gsinkok),
     'ocount': sf_ocount, 'olast': sf_olast,
@@ -2600,7 +2781,8 @@ SPEC_FUNCS = {
     'zmax': lambda eng, node, a, b: zmax(toz(a), toz(b)),
     'zmin': lambda eng, node, a, b: zmin(toz(a), toz(b)),
     'floordiv': lambda eng, node, a, b: py_floordiv(a, b),
-    'ite': lambda eng, node, c, a, b: z3.If(toz(as_bool(c)), toz(a), toz(b)),
+    'ite': lambda eng, node, c, a, b: (VSeq(z3.If(toz(as_bool(c)), a.term, b.term)) if isinstance(a, VSeq) and isinstance(b, VSeq)
+                                       else z3.If(toz(as_bool(c)), toz(a), toz(b))),
 }
 # constants exposed as names
 _CONST_SPECS = {'cnil'}
@@ -2735,11 +2917,19 @@ def b_isinstance(eng, node, v, t):
     if name in ('numbers.Integral', 'int', 'numbers.Real') and (isinstance(v, int) or (is_z3(v) and z3.is_int(v))) \
             and not isinstance(v, bool):
         return True
+    if isinstance(v, VSink):
+        return False                      # a text stream is not a str / not a formula class
     if isinstance(v, VObj) and name:
         real = eng.classmodels.get(v.cls, {}).get('real', v.cls)
         mro = eng.class_mro(v.cls)
         return name.split('.')[-1] in mro or name.split('.')[-1] == real
     raise Unsupported('isinstance({!r}, {})'.format(v, name))
+
+
+def b_str(eng, node, v=None):
+    if eng.frames[0]['contract'].get('trace') and ((isinstance(v, int) and not isinstance(v, bool)) or (is_z3(v) and z3.is_int(v))):
+        return VFmt('{}', [toz(v)])
+    return '<str>'
 
 
 def b_isgenerator(eng, node, v):
@@ -2768,7 +2958,11 @@ def b_zip(eng, node, *args):
     raise Unsupported('zip of symbolic sequences')
 
 
-def b_enumerate(eng, node, a):
+def b_enumerate(eng, node, a, start=0):
+    if isinstance(a, VStrs):
+        return VEnum(a, start)
+    if not (isinstance(start, int) and start == 0):
+        raise Unsupported('enumerate with a start over this kind of sequence')
     if isinstance(a, VTuple):
         return VTuple([VTuple([i, x]) for i, x in enumerate(a.items)], 'list')
     if isinstance(a, VArr):
@@ -2826,7 +3020,7 @@ def _empty_pairset():
     return z3.Lambda([z3.Int('ps!x'), z3.Int('ps!y')], z3.BoolVal(False))
 
 
-BUILTINS = {'set': b_set, 'all': b_allany_raw, 'any': b_allany_raw, 'sorted': lambda eng, node, seq, key=None: lib_sorted(eng, node, seq, key), 'len': b_len, 'abs': b_abs, 'min': b_minmax('min'), 'max': b_minmax('max'), 'range': b_range,
+BUILTINS = {'str': b_str, 'set': b_set, 'all': b_allany_raw, 'any': b_allany_raw, 'sorted': lambda eng, node, seq, key=None: lib_sorted(eng, node, seq, key), 'len': b_len, 'abs': b_abs, 'min': b_minmax('min'), 'max': b_minmax('max'), 'range': b_range,
             'list': b_list, 'tuple': b_list, 'isinstance': b_isinstance, 'int': b_int, 'zip': b_zip,
             'enumerate': b_enumerate, 'sum': b_sum_raw, 'next': b_next, 'iter': lambda eng, node, v: v}
 
